@@ -66,3 +66,14 @@ type BlockTamperer interface {
 type NontrivialJudge interface {
 	Nontrivial(s *Sim) bool
 }
+
+// PostBlock (optional): called after every committed block and the generic sampled queries, at a
+// quiescent instant; qseed seeds the observer's own PRNG (rand.NewPCG(qseed, ...)) for query choices.
+type PostBlock interface {
+	AfterBlock(s *Sim, qseed uint64)
+}
+
+// PostReopen (optional): called after every crash/reload once the generic prefix+fold checks passed.
+type PostReopen interface {
+	AfterReopen(s *Sim, why string)
+}
